@@ -386,9 +386,21 @@ func (e *Env) evalCallWith(call *ast.CallExpr, st *State, args []Value) Value {
 			e.C.specAt = call.Pos()
 			// the arguments of the call are visible as arg0, arg1, ...
 			extra := map[string]TV{}
+			var psig *types.Signature
+			if ft := e.Info.TypeOf(call.Fun); ft != nil {
+				psig, _ = ft.Underlying().(*types.Signature)
+			}
 			for i, a := range args {
 				if i < len(call.Args) {
 					if t := e.Info.TypeOf(call.Args[i]); t != nil && a != nil {
+						// an untyped nil (or constant) argument takes the parameter's type
+						if psig != nil && i < psig.Params().Len() && !(psig.Variadic() && i >= psig.Params().Len()-1) {
+							pt := psig.Params().At(i).Type()
+							if b, isB := t.(*types.Basic); isB && b.Info()&types.IsUntyped != 0 {
+								a = e.convertAssign(a, t, pt, st)
+								t = pt
+							}
+						}
 						extra[fmt.Sprintf("arg%d", i)] = TV{a, t}
 					}
 				}
